@@ -105,6 +105,7 @@ func checkC23(w *World, r *Run) {
 		})
 	}
 	checkC23SecondaryOptionsGuard(w, r)
+	checkC23Rewind(w, r)
 	r.NotCovered("equality of the resulting states; behaviour when a secondary fails half-way (the primary is already changed); explicit version ids")
 }
 
